@@ -19,7 +19,7 @@ From Coq Require Import List NArith Bool PeanoNat Sorted.
 Import ListNotations.
 From RX Require Import Generated.
 From RX.Model Require Import Base CharClass Stream Tokenizer Doc Builder Parse Api.
-From RX.Proofs Require Import PositionProofs ErrPosStream ErrPosTokenizer ErrPosParse ErrPayload RangeShiftBuilder ErrShiftBase ErrShiftFinal ErrShiftMidCore ErrShiftMidFinal ErrShiftDtdFinal ErrShiftEntFinal ErrShiftSubCont ErrShiftSubFinal.
+From RX.Proofs Require Import PositionProofs ErrPosStream ErrPosTokenizer ErrPosParse ErrPayload RangeShiftBuilder ErrShiftBase ErrShiftFinal ErrShiftMidCore ErrShiftMidFinal ErrShiftDtdFinal ErrShiftEntFinal ErrShiftSubCont ErrShiftSubFinal ErrShiftProlog.
 From RX Require GeneratedDisplay.
 From RX.Model Require ErrDisplay.
 From RX.Proofs Require ErrDisplayProofs.
@@ -339,8 +339,18 @@ Theorem C14_parse_err_shift_prolog :
 Proof. exact parse_err_shift_prolog. Qed.
 Print Assumptions C14_parse_err_shift_prolog.
 
+(* ---- Proofs/ErrShiftProlog.v ---- *)
+Theorem C14_parse_ok_shift_prolog :
+  forall pre ws post opt d,
+  forallb byte_is_space ws = true -> valid_utf8_b post = true -> post <> [] ->
+  prolog_point pre post opt ->
+  parse (pre ++ post) opt = Ok d ->
+  parse (pre ++ ws ++ post) opt = Ok (mid_doc (blen pre) (blen ws) d).
+Proof. exact parse_ok_shift_prolog. Qed.
+Print Assumptions C14_parse_ok_shift_prolog.
+
 (* ---- Proofs/ErrPosTokenizer.v ---- *)
-Module G6.
+Module G7.
 Local Notation token := Tokenizer.token.
 Theorem C14_tokenizer_errors_positioned :
   forall text (C : Type) (ev : token -> C -> res C) dtd c e,
@@ -349,7 +359,7 @@ Theorem C14_tokenizer_errors_positioned :
 Proof. exact tokenizer_errors_positioned. Qed.
 Print Assumptions C14_tokenizer_errors_positioned.
 
-End G6.
+End G7.
 
 (* ---- Proofs/ErrPosParse.v ---- *)
 Theorem C14_token_errors_positioned :
@@ -376,7 +386,7 @@ Proof. exact parse_error_payload_from_source. Qed.
 Print Assumptions C14_parse_error_payload_from_source.
 
 (* ---- Proofs/ErrDisplayProofs.v ---- *)
-Module G9.
+Module G10.
 Import RX.GeneratedDisplay. Import RX.Model.ErrDisplay. Import RX.Proofs.ErrShiftBase. Import RX.Proofs.ErrDisplayProofs. Local Open Scope list_scope.
 Theorem C14_display_table_complete :
   forall e,
@@ -407,4 +417,4 @@ Theorem C14_display_payload :
 Proof. exact display_payload. Qed.
 Print Assumptions C14_display_payload.
 
-End G9.
+End G10.
